@@ -44,6 +44,16 @@ def run(tier, seed):
 
     for i, (kw, res) in enumerate(zip(small, pmap(one, [(kw,) for kw in small]))):
         rep.add_bfs(_name(kw), res, SmtSys(seed=seed, **kw), keep_samples=1 if i < 1 else 0)
+    from ..scale import smt_scale
+    for d in (b"", b"\x07"):
+        if d == b"":
+            continue  # (with a blank default some probe values read as absent; the non-blank default exercises every read)
+        viols, evals = smt_scale(d)
+        for v in viols:
+            v = dict(v)
+            v["hist"] = []
+            rep.add_violation(v, dict(system="scale", kwargs=dict(default=d.hex())))
+        rep.add_part(name="scale probe: 400 writes / deletes on one live tree (8 keys, equal values under several keys)", evaluations=evals)
     return rep
 
 
@@ -52,6 +62,11 @@ def _name(kw):
 
 
 def replay_smt(doc):
+    if doc["system"].get("system") == "scale":
+        from ..scale import smt_scale
+        viols, _ = smt_scale(bytes.fromhex(doc["system"]["kwargs"]["default"]))
+        print("re-ran the scale probe; failing checks:", sorted({v["check"] for v in viols}))
+        return doc["check"] in {v["check"] for v in viols}
     return replay_doc(lambda: SmtSys.from_kwargs(doc["system"]["kwargs"]), doc)
 
 
